@@ -14,6 +14,7 @@ import (
 	"path/filepath"
 	"strconv"
 	"strings"
+	"sync"
 	"text/template"
 	"time"
 )
@@ -26,6 +27,7 @@ type replayEntry struct {
 	Package  string   `json:"package,omitempty"`  // Go package name (default: last dir element)
 	Race     bool     `json:"race,omitempty"`
 	NoInputs bool     `json:"noinputs,omitempty"` // the replay needs no counterexample values
+	Pattern  string   `json:"pattern,omitempty"`  // further output substrings ("a|b") that mean "reproduced" (fatal errors cannot be recovered in the test)
 }
 
 func init() {
@@ -116,6 +118,16 @@ func templateReplay(r *Report, v *Verdict) *ReplayResult {
 	if len(v.Values) == 0 && !ent.NoInputs {
 		return &ReplayResult{Skipped: "the solver returned no values for the contract-level expressions"}
 	}
+	if ent.NoInputs {
+		// input-free replays do not depend on the obligation: run each template once per check
+		replayMemoMu.Lock()
+		memo, ok := replayMemo[ent.Template+"@"+ent.Pkg]
+		replayMemoMu.Unlock()
+		if ok {
+			cp := *memo
+			return &cp
+		}
+	}
 	funcs := template.FuncMap{
 		"int": func(k string) (int64, error) {
 			s, ok := v.Values[k]
@@ -205,11 +217,101 @@ func templateReplay(r *Report, v *Verdict) *ReplayResult {
 	if len(o) > 6000 {
 		o = o[:6000]
 	}
-	return &ReplayResult{
-		Reproduced: strings.Contains(o, "VERIF-REPRODUCED"),
+	extra := false
+	if ent.Pattern != "" {
+		for _, pat := range strings.Split(ent.Pattern, "|") {
+			if pat != "" && strings.Contains(o, pat) {
+				extra = true
+			}
+		}
+	}
+	res := &ReplayResult{
+		Reproduced: extra || strings.Contains(o, "VERIF-REPRODUCED") || (ent.Race && strings.Contains(o, "WARNING: DATA RACE")),
 		Cmd:        "cd " + r.Repo + " && go " + strings.Join(args, " "),
 		Output:     o,
 		TestFile:   testFile,
 		Inputs:     v.Values,
 	}
+	if ent.NoInputs {
+		replayMemoMu.Lock()
+		replayMemo[ent.Template+"@"+ent.Pkg] = res
+		replayMemoMu.Unlock()
+	}
+	return res
+}
+
+var (
+	replayMemo   = map[string]*ReplayResult{}
+	replayMemoMu sync.Mutex
+)
+
+// Bounded stand-ins: tests with a stated bound that run on every check for obligations the
+// verifier cannot decide (listed in contracts/props/<id>.json). They are reported separately and
+// never counted as proved.
+type boundedCheck struct {
+	Name       string `json:"name"`       // replay/index.json entry "bounded" with match == name
+	Obligation string `json:"obligation"` // the undecided obligation it stands in for
+	Bound      string `json:"bound"`
+}
+
+func runBounded(r *Report, prop string, checks []boundedCheck) *ExtraResult {
+	if len(checks) == 0 {
+		return nil
+	}
+	ex := &ExtraResult{Coverage: map[string]any{}}
+	type res struct {
+		c   boundedCheck
+		rr  *ReplayResult
+		dur float64
+	}
+	out := make([]res, len(checks))
+	done := make(chan int)
+	for i, c := range checks {
+		go func(i int, c boundedCheck) {
+			t0 := time.Now()
+			v := &Verdict{Ob: &Obligation{Name: "bounded/" + c.Name, Kind: "bounded", Src: c.Obligation + " (bounded: " + c.Bound + ")"}, Status: "bounded"}
+			out[i] = res{c, templateReplay(r, v), time.Since(t0).Seconds()}
+			done <- i
+		}(i, c)
+	}
+	for range checks {
+		<-done
+	}
+	var list []any
+	for _, o := range out {
+		status := "held"
+		switch {
+		case o.rr == nil:
+			status = "not-run (no replay/index.json entry)"
+		case o.rr.Skipped != "":
+			status = "not-run (" + o.rr.Skipped + ")"
+		case o.rr.Reproduced:
+			status = "violated"
+			dir := filepath.Join(r.OutDir, "replay")
+			os.MkdirAll(dir, 0o755)
+			p := filepath.Join(dir, sanitizeFile("bounded_"+o.c.Name)+".json")
+			b, _ := json.MarshalIndent(map[string]any{"property": prop, "obligation": o.c.Obligation, "kind": "bounded", "bound": o.c.Bound,
+				"replay_on_real_code": o.rr, "note": "bounded stand-in for an obligation the verifier cannot decide; the test failed on the real code"}, "", " ")
+			os.WriteFile(p, b, 0o644)
+			ex.Violations = append(ex.Violations, fmt.Sprintf("VIOLATION property=%s replay=%s", prop, p))
+			fmt.Printf("FAILED-BOUNDED %s (stands in for %s; bound: %s)\n", o.c.Name, o.c.Obligation, o.c.Bound)
+		case !strings.Contains(o.rr.Output, "ok  \t") && !strings.Contains(o.rr.Output, "VERIF-NOT-REPRODUCED"):
+			status = "not-run (test did not build or run: " + firstLine(o.rr.Output) + ")"
+		}
+		list = append(list, map[string]any{"name": o.c.Name, "stands_in_for": o.c.Obligation, "bound": o.c.Bound, "status": status, "wall_s": round1(o.dur), "cmd": o.rr.Cmd})
+	}
+	ex.Coverage["bounded_standins"] = list
+	ex.Assumptions = append(ex.Assumptions, "bounded_standins are tests with the stated bound run on the real code on every check; they are not proofs and are not counted in obligations/discharged")
+	return ex
+}
+
+func firstLine(s string) string {
+	s = strings.TrimSpace(s)
+	if i := strings.IndexByte(s, '\n'); i >= 0 {
+		s = s[:i]
+	}
+	if len(s) > 160 {
+		s = s[:160]
+	}
+	return s
 }
